@@ -12,8 +12,14 @@
 #define VIN_MAX 256
 #ifdef __CPROVER__
 uint64_t nondet_vin_u64(void);
-uint64_t VIN_LOG[VIN_MAX]; unsigned VIN_N;
-static inline uint64_t vin_u64(void){ uint64_t v = nondet_vin_u64(); if (VIN_N < VIN_MAX) VIN_LOG[VIN_N] = v; VIN_N++; return v; }
+/* every symbolic input is drawn here; the counterexample trace shows the successive values of vin_value__
+   (no log array: a 2 KB global array was measured to multiply the formula size by 10) */
+static inline uint64_t vin_u64(void){ uint64_t vin_value__ = nondet_vin_u64(); return vin_value__; }
+/* exact-width draws: measured 10x smaller formulas than truncating a 64-bit nondet value */
+uint8_t nondet_vin_u8(void); uint16_t nondet_vin_u16(void); uint32_t nondet_vin_u32(void);
+static inline uint8_t vin_u8(void){ uint8_t vin_value__ = nondet_vin_u8(); return vin_value__; }
+static inline uint16_t vin_u16(void){ uint16_t vin_value__ = nondet_vin_u16(); return vin_value__; }
+static inline uint32_t vin_u32(void){ uint32_t vin_value__ = nondet_vin_u32(); return vin_value__; }
 #define VASSERT(c, msg) __CPROVER_assert((c), msg)
 #define VASSUME(c) __CPROVER_assume(c)
 #define VOBS(x) ((void)0)
@@ -35,11 +41,13 @@ uint64_t vin_u64(void);
 #define __CPROVER_assume(c) VASSUME(c)
 #define __CPROVER_assert(c, m) VASSERT(c, m)
 #endif
+#ifndef __CPROVER__
 static inline uint8_t vin_u8(void){ return (uint8_t)vin_u64(); }
 static inline uint16_t vin_u16(void){ return (uint16_t)vin_u64(); }
 static inline uint32_t vin_u32(void){ return (uint32_t)vin_u64(); }
+#endif
 static inline double vin_f64(void){ uint64_t b = vin_u64(); double d; memcpy(&d, &b, 8); return d; }
-static inline float vin_f32(void){ uint32_t b = (uint32_t)vin_u64(); float f; memcpy(&f, &b, 4); return f; }
+static inline float vin_f32(void){ uint32_t b = vin_u32(); float f; memcpy(&f, &b, 4); return f; }
 static inline uint64_t vbits64(double d){ uint64_t b; memcpy(&b, &d, 8); return b; }
 static inline uint32_t vbits32(float f){ uint32_t b; memcpy(&b, &f, 4); return b; }
 #endif
